@@ -93,3 +93,5 @@ META = dict(
                 "attribute separators, no entities/CDATA/comments inside the root, no '<' or '&' in text)."),
     technique="runtime monitoring: generator-derived reference traversal + byte-offset body oracle + ASan/UBSan",
 )
+
+CFG["rule"] += (" " + 'Additions: for documents deeper than the limit the descend action ignores the failed traverse half of the time (aws_xml_parse must still fail, no further callback); stage asan_latin1; stages mt_tsan/mt_rel; stale aws_last_error()/errno.')
